@@ -912,7 +912,75 @@ def jsonable_f(c):
     return {k: (val if k not in ("pu", "ps", "Xu", "Xs") else [list(map(float, r)) for r in val]) for k, val in c.items()}
 
 
+def float_segments(ctx, n):
+    """`_closest_points_on_segments_2d` on float data in general position AND on (nearly) parallel / collinear segments whose coordinates are
+    not exactly representable -- there `den` is rounding noise instead of 0: the returned pair must still be (up to rounding) a closest pair.
+    Reference: exact minimisation over the rational images of the same floats (the minimum of a convex quadratic over the unit square is
+    attained at a vertex, on an edge projection or at the interior stationary point)."""
+    from hiten.algorithms.connections.backends import _closest_points_on_segments_2d as cp
+    rng = ctx.rng
+
+    def exact_min(a0, a1, b0, b1):
+        a0, a1, b0, b1 = [tuple(F(float(x)) for x in p) for p in (a0, a1, b0, b1)]
+        u = (a1[0] - a0[0], a1[1] - a0[1])
+        v = (b1[0] - b0[0], b1[1] - b0[1])
+
+        def d2(s_, t_):
+            px, py = a0[0] + s_ * u[0], a0[1] + s_ * u[1]
+            qx, qy = b0[0] + t_ * v[0], b0[1] + t_ * v[1]
+            return (px - qx) ** 2 + (py - qy) ** 2
+
+        def proj(p, q0, q1):     # parameter of the point of segment q closest to p
+            w = (q1[0] - q0[0], q1[1] - q0[1])
+            ww = w[0] * w[0] + w[1] * w[1]
+            if ww == 0:
+                return F(0)
+            return min(F(1), max(F(0), ((p[0] - q0[0]) * w[0] + (p[1] - q0[1]) * w[1]) / ww))
+        cands = []
+        for s_ in (F(0), F(1)):
+            p = (a0[0] + s_ * u[0], a0[1] + s_ * u[1])
+            cands.append(d2(s_, proj(p, b0, b1)))
+        for t_ in (F(0), F(1)):
+            q = (b0[0] + t_ * v[0], b0[1] + t_ * v[1])
+            cands.append(d2(proj(q, a0, a1), t_))
+        A, B, C = u[0] * u[0] + u[1] * u[1], u[0] * v[0] + u[1] * v[1], v[0] * v[0] + v[1] * v[1]
+        w = (a0[0] - b0[0], a0[1] - b0[1])
+        D, E = u[0] * w[0] + u[1] * w[1], v[0] * w[0] + v[1] * w[1]
+        den = A * C - B * B
+        if den > 0:
+            s_, t_ = (B * E - C * D) / den, (A * E - B * D) / den
+            if 0 <= s_ <= 1 and 0 <= t_ <= 1:
+                cands.append(d2(s_, t_))
+        return min(cands)
+
+    for k in range(n):
+        kind = ["general", "parallel", "antiparallel", "collinear", "nearly-parallel"][k % 5]
+        a0 = np.array([rng.uniform(-1, 1), rng.uniform(-1, 1)])
+        u = np.array([rng.uniform(-1, 1), rng.uniform(-1, 1)])
+        b0 = np.array([rng.uniform(-1, 1), rng.uniform(-1, 1)])
+        if kind == "general":
+            v = np.array([rng.uniform(-1, 1), rng.uniform(-1, 1)])
+        elif kind == "nearly-parallel":
+            v = rng.uniform(0.2, 2.0) * u + np.array([rng.uniform(-1, 1), rng.uniform(-1, 1)]) * 10.0 ** rng.uniform(-15, -9)
+        else:
+            v = rng.uniform(0.2, 2.0) * (-1 if kind == "antiparallel" else 1) * u       # parallel in the reals, rounded in floats
+            if kind == "collinear":
+                b0 = a0 + rng.uniform(-2, 2) * u
+        a1, b1 = a0 + u, b0 + v
+        s_, t_, px, py, qx, qy = cp(a0[0], a0[1], a1[0], a1[1], b0[0], b0[1], b1[0], b1[1])
+        got = math.hypot(px - qx, py - qy)
+        best = math.sqrt(float(exact_min(a0, a1, b0, b1)))
+        ctx.case(("float-segments", kind, k), nontrivial=kind != "general", kind="float-segments:" + kind)
+        if not (0.0 <= s_ <= 1.0 and 0.0 <= t_ <= 1.0 and got <= best + 1e-9 * (1.0 + best)):
+            viol(ctx, "closest:float:%s" % kind,
+                 "%s float segments: the returned points are %.6g apart (s=%r, t=%r), the closest points of the two segments are %.6g apart" % (kind, got, s_, t_, best),
+                 {"kind": "float-segments", "a0": a0.tolist(), "a1": a1.tolist(), "b0": b0.tolist(), "b1": b1.tolist(), "returned_s_t": [float(s_), float(t_)],
+                  "returned_distance": got, "minimum_distance": best})
+            return
+
+
 def float_search(ctx, n):
+    float_segments(ctx, 4 * n)
     for c in float_cases(ctx, n):
         resp = real_run(c)
         results = list(resp.results)
